@@ -151,6 +151,11 @@ def h_step(P, kinds, shape, props, L=2, hibernation=False, generations=2, mech="
     if "C18" in props:
         _hibernation(P, w, tree, new_demes)
 
+    if "C18" in props:
+        awake = [did for did, pre in w.pre.items() if val(pre["active"]) and not (w.hibernation and val(pre["hib"]))]
+        if awake:
+            P.oblige("C18.progress.some_deme_awake", len(w.log.entries) > w.pre_log)
+
     # =========================== C03
     if "C03" in props:
         _counts(P, w, tree, "after_step")
